@@ -38,6 +38,22 @@ func main() {
 		os.Exit(cmdCheck(os.Args[2:]))
 	case "list":
 		os.Exit(cmdList(os.Args[2:]))
+	case "ssa":
+		// govc ssa <pkgpath> <function key substring>
+		eng := &Engine{repo: "/repo"}
+		if err := eng.load([]string{os.Args[2]}); err != nil {
+			fmt.Println(err)
+			os.Exit(2)
+		}
+		for k, fn := range eng.fnByKey {
+			if strings.Contains(k, os.Args[3]) {
+				fn.WriteTo(os.Stdout)
+				for _, af := range fn.AnonFuncs {
+					af.WriteTo(os.Stdout)
+				}
+			}
+		}
+		os.Exit(0)
 	default:
 		fmt.Fprintln(os.Stderr, "unknown command")
 		os.Exit(2)
